@@ -233,11 +233,11 @@ Proof.
 Qed.
 
 Lemma Forall_upd_child {A} (P : A -> Prop) (d : A) k f cs :
-  Forall (fun kc => P (snd kc)) cs -> (forall c, P c -> P (f c)) -> P d ->
+  Forall (fun kc => P (snd kc)) cs -> (forall c, P c -> P (f c)) -> P (f d) ->
   Forall (fun kc => P (snd kc)) (upd_child d k f cs).
 Proof.
   intros Hall Hf Hd. induction Hall as [|[k' c] cs Hc Hcs IH]; cbn.
-  - constructor; [now apply Hf|constructor].
+  - constructor; [exact Hd|constructor].
   - destruct (str_eqb k k'); constructor; try assumption. now apply Hf.
 Qed.
 
@@ -351,7 +351,7 @@ Proof.
   - exact Hwf.
   - cbn [set_at nval nkids]. apply wfn_unfold in Hwf as [Hnd Hc]. apply wfn_unfold. split.
     + now apply NoDup_names_upd_child.
-    + apply Forall_upd_child; [assumption|exact IH|exact wfn_empty].
+    + apply Forall_upd_child; [assumption|exact IH|apply IH; exact wfn_empty].
 Qed.
 
 (* ------------------------------------------------------------------ del_at *)
@@ -384,4 +384,153 @@ Proof.
     + destruct q as [|k2 q]; [reflexivity|]. cbn [path_eqb].
       destruct (str_eqb_spec k k2) as [<-|Hn]; [|reflexivity].
       rewrite lookup_cons, Ef. now destruct (path_eqb p q).
+Qed.
+
+(* ------------------------------------------------------------------ delm (ndelete_matches) *)
+
+Lemma delm_nil {V} (n : node V) trav :
+  delm n trav [] = DelmRes (Node None (nkids n)) (map (fun x => (trav, x)) (opt_list (nval n))) [].
+Proof. destruct n; reflexivity. Qed.
+
+Lemma delm_multi {V} (n : node V) trav :
+  delm n trav [Multi] = DelmRes (Node None []) (collect n trav [Multi]) (multi_notes n trav).
+Proof. destruct n; reflexivity. Qed.
+
+Lemma delm_multi_bad {V} (n : node V) trav s p :
+  delm n trav (Multi :: s :: p) = DelmRes n [] [].
+Proof. destruct n; reflexivity. Qed.
+
+Definition wild_rs {V} (trav : list str) (tail : list kseg) (cs : list (str * node V))
+  : list (str * node V * delm_res V) :=
+  map (fun kc => (fst kc, snd kc, delm (snd kc) (trav ++ [fst kc]) tail)) cs.
+
+Lemma delm_wild {V} (v : option V) cs trav tail :
+  delm (Node v cs) trav (Wild :: tail) =
+  let rs := wild_rs trav tail cs in
+  DelmRes (Node v (trim_kids (map (fun x => (fst (fst x), dr_node (snd x))) rs)))
+          (flat_map (fun x => dr_matches (snd x)) rs)
+          (wild_notes trav [] rs).
+Proof.
+  cbn [delm]. unfold wild_rs.
+  assert (E : (fix go (cs0 : list (str * node V)) : list (str * node V * delm_res V) :=
+                 match cs0 with
+                 | [] => []
+                 | (k, c) :: cs' => (k, c, delm c (trav ++ [k]) tail) :: go cs'
+                 end) cs =
+              map (fun kc => (fst kc, snd kc, delm (snd kc) (trav ++ [fst kc]) tail)) cs).
+  { induction cs as [|[k c] cs IH]; cbn; [reflexivity|]. now rewrite IH. }
+  now rewrite E.
+Qed.
+
+Lemma delm_reg {V} (v : option V) cs trav s tail :
+  delm (Node v cs) trav (Reg s :: tail) =
+  match find_child s cs with
+  | Some c =>
+      let rc := delm c (trav ++ [s]) tail in
+      let kids := mod_child s (fun _ => dr_node rc) cs in
+      DelmRes (Node v (trim_kids kids)) (dr_matches rc)
+              (dr_notes rc ++ (if any_obsolete kids then [(trav, names (trim_kids kids))] else []))
+  | None => DelmRes (Node v (trim_kids cs)) [] []
+  end.
+Proof.
+  cbn [delm].
+  assert (E : (fix go (cs0 : list (str * node V)) : option (delm_res V) :=
+                 match cs0 with
+                 | [] => None
+                 | (k, c) :: cs' => if str_eqb s k then Some (delm c (trav ++ [s]) tail) else go cs'
+                 end) cs =
+              option_map (fun c => delm c (trav ++ [s]) tail) (find_child s cs)).
+  { induction cs as [|[k c] cs IH]; cbn; [reflexivity|]. destruct (str_eqb s k); [reflexivity|assumption]. }
+  rewrite E. destruct (find_child s cs); reflexivity.
+Qed.
+
+(* the deleted matches are exactly what ncollect_matches would have returned *)
+Theorem delm_matches {V} (n : node V) : forall trav p,
+  dr_matches (delm n trav p) = collect n trav p.
+Proof.
+  induction n as [v cs IH] using node_ind'. intros trav p.
+  destruct p as [|s p].
+  - reflexivity.
+  - destruct s as [s| |].
+    + rewrite delm_reg, collect_reg.
+      destruct (find_child s cs) as [c|] eqn:Ef; [|reflexivity]. cbn [dr_matches].
+      rewrite Forall_forall in IH. exact (IH _ (find_child_In _ _ _ Ef) _ _).
+    + rewrite delm_wild, collect_wild. cbn [dr_matches]. unfold wild_rs.
+      induction IH as [|[k c] cs Hc Hcs IHcs]; cbn; [reflexivity|].
+      cbn [snd] in Hc. now rewrite Hc, IHcs.
+    + destruct p as [|s' p].
+      * now rewrite delm_multi.
+      * now rewrite delm_multi_bad, collect_multi_bad.
+Qed.
+
+Lemma find_map_fst_snd {A B} (g : str -> A -> B) k (cs : list (str * A)) :
+  find_child k (map (fun kc => (fst kc, g (fst kc) (snd kc))) cs) = option_map (g k) (find_child k cs).
+Proof. apply find_map_kids. Qed.
+
+Lemma names_map_kids {A B} (g : str * A -> B) (cs : list (str * A)) :
+  names (map (fun kc => (fst kc, g kc)) cs) = names cs.
+Proof. unfold names. rewrite map_map. apply map_ext. reflexivity. Qed.
+
+(* pdelete removes exactly the entries satisfying store_match and keeps everything else *)
+Theorem delm_spec {V} (n : node V) : forall trav p q,
+  wfn n ->
+  wfn (dr_node (delm n trav p)) /\
+  lookup (dr_node (delm n trav p)) q = if store_match p q then None else lookup n q.
+Proof.
+  induction n as [v cs IH] using node_ind'. intros trav p q Hwf.
+  pose proof Hwf as Hwf0. apply wfn_unfold in Hwf as [Hnd Hwfc].
+  destruct p as [|s p].
+  - rewrite delm_nil. cbn [dr_node nkids]. split; [now apply wfn_unfold|].
+    destruct q; reflexivity.
+  - destruct s as [s| |].
+    + (* Reg *)
+      rewrite delm_reg. destruct (find_child s cs) as [c|] eqn:Ef.
+      * cbn [dr_node]. pose proof (find_child_In _ _ _ Ef) as Hin.
+        rewrite Forall_forall in IH, Hwfc.
+        destruct (IH _ Hin (trav ++ [s]) p [] (Hwfc _ Hin)) as [Hwc _].
+        split.
+        -- apply wfn_unfold. split.
+           ++ apply NoDup_names_filter. now rewrite names_mod_child.
+           ++ apply Forall_forall. intros kc Hk. apply filter_In in Hk as [Hk _].
+              revert kc Hk. apply Forall_forall. apply Forall_mod_child.
+              ** apply Forall_forall. exact Hwfc.
+              ** intros _ _. exact Hwc.
+        -- rewrite lookup_trim by now rewrite names_mod_child.
+           destruct q as [|k2 q]; [reflexivity|].
+           rewrite !lookup_cons, find_mod_child. cbn [store_match].
+           destruct (str_eqb_spec s k2) as [<-|Hn].
+           ++ rewrite str_eqb_refl, Ef. cbn [option_map andb].
+              destruct (IH _ Hin (trav ++ [s]) p q (Hwfc _ Hin)) as [_ Hl]. exact Hl.
+           ++ apply not_eq_sym in Hn. apply str_eqb_neq in Hn. rewrite Hn. reflexivity.
+      * cbn [dr_node]. split.
+        -- apply wfn_unfold. split; [now apply NoDup_names_filter|].
+           apply Forall_forall. intros kc Hk. apply filter_In in Hk as [Hk _].
+           rewrite Forall_forall in Hwfc. now apply Hwfc.
+        -- rewrite lookup_trim by assumption.
+           destruct q as [|k2 q]; [reflexivity|]. cbn [store_match].
+           destruct (str_eqb_spec s k2) as [<-|Hn]; [|reflexivity].
+           rewrite lookup_cons, Ef. now destruct (store_match p q).
+    + (* Wild *)
+      rewrite delm_wild. cbn [dr_node]. unfold wild_rs. rewrite map_map. cbn [fst snd].
+      set (g := fun (k : str) (c : node V) => dr_node (delm c (trav ++ [k]) p)).
+      change (map (fun x : str * node V => (fst x, dr_node (delm (snd x) (trav ++ [fst x]) p))) cs)
+        with (map (fun kc : str * node V => (fst kc, g (fst kc) (snd kc))) cs).
+      rewrite Forall_forall in IH, Hwfc. split.
+      * apply wfn_unfold. split.
+        -- apply NoDup_names_filter. unfold names. rewrite map_map. cbn [fst]. exact Hnd.
+        -- apply Forall_forall. intros kc Hk. apply filter_In in Hk as [Hk _].
+           apply in_map_iff in Hk as ([k c] & <- & Hin). cbn [fst snd]. unfold g.
+           exact (proj1 (IH _ Hin (trav ++ [k]) p [] (Hwfc _ Hin))).
+      * rewrite lookup_trim by (unfold names; rewrite map_map; exact Hnd).
+        destruct q as [|k2 q]; [reflexivity|].
+        rewrite !lookup_cons, find_map_kids. cbn [store_match].
+        destruct (find_child k2 cs) as [c|] eqn:Ef; cbn [option_map].
+        -- pose proof (find_child_In _ _ _ Ef) as Hin. unfold g.
+           exact (proj2 (IH _ Hin (trav ++ [k2]) p q (Hwfc _ Hin))).
+        -- now destruct (store_match p q).
+    + (* Multi *)
+      destruct p as [|s' p].
+      * rewrite delm_multi. cbn [dr_node]. split; [exact wfn_empty|].
+        cbn [store_match]. now apply lookup_obsolete.
+      * rewrite delm_multi_bad. cbn [dr_node]. split; [assumption|reflexivity].
 Qed.
